@@ -39,6 +39,8 @@ properties! {
     "C03" => c03,
     "C04" => c04,
     "C05" => c05,
+    "C06" => c06,
+    "C07" => c07,
 }
 
 pub fn selftest() -> i32 {
